@@ -213,8 +213,19 @@ def gen_metric_records(rng, metrics, n_random, exhaustive, dims=(1, 2, 3)):
                 ref = gen.relabel_random(rng, ref, 1, 120)
             rl = [int(x) for x in np.unique(ref) if x] + [121]
             pl = [int(x) for x in np.unique(pred) if x] + [122, 123]
+            style = rng.random()
+            if style < 0.25:
+                # long lists of prediction labels (most of them absent), sparse ids, also float arrays
+                scale = rng.choice([1, 1000, 7919])
+                pred, ref = pred * scale, ref * scale
+                rl = [x * scale for x in rl]
+                pl = [x * scale for x in pl] + [scale * j + 3 for j in range(130, 130 + rng.randint(15, 40))]
+                if rng.random() < 0.4:
+                    dt = rng.choice([np.float32, np.float64, np.int64, np.uint32]) if scale < 7919 else rng.choice([np.float64, np.int64])
+                elif scale > 1:
+                    dt = rng.choice([np.int32, np.int64, np.uint32, np.uint64])
             ri = rng.choice(rl)
-            k = rng.choice([1, 1, 2, 3])
+            k = rng.choice([1, 1, 2, 3]) if style >= 0.25 else rng.randint(12, len(pl))
             pis = rng.sample(pl, min(k, len(pl)))
             rm, pm = ref == ri, np.isin(pred, pis)
             if not _defined(m, rm, pm):
